@@ -78,7 +78,25 @@ def render(toks):
 _DUMP = re.compile(r"^goroutine \d+ [^\n]*\[[^\]\n]+\]:\s*$", re.M)
 _HEAD = re.compile(r"^(panic: [^\n]*|fatal error: [^\n]*|SIG[A-Z]+: [^\n]*|runtime: [^\n]*)", re.M)
 _FRAME = re.compile(r"^(github\.com/tucats/ego/[^\s(]+(?:\([^)\n]*\))?[^\s(]*)\(", re.M)
-_OOM = re.compile(r"out of memory|cannot allocate memory|failed to create new OS thread|runtime: VirtualAlloc|mmap.*errno=12")
+_OOM = re.compile(r"out of memory|cannot allocate memory|failed to create new OS thread|pthread_create failed|errno=12")
+
+
+def crash_excerpt(path):
+    """The part of a (possibly huge) output file that starts shortly before the first goroutine dump."""
+    try:
+        size = os.path.getsize(path)
+        with open(path, "rb") as f:
+            data = f.read(30 << 20)
+            if size > (31 << 20):
+                f.seek(size - (1 << 20))
+                data += b"\n" + f.read()
+    except OSError:
+        return ""
+    text = data.decode("utf8", "replace")
+    m = _DUMP.search(text)
+    if not m:
+        return text[-20000:]
+    return text[max(0, m.start() - 4000): m.start() + 60000]
 
 
 def kind_of(msg):
@@ -111,6 +129,11 @@ def trace_info(text):
             break
     oom = bool(_OOM.search(text[:m.start() + 2000]))
     return True, oom, kind_of(head or text[:m.start()][-400:]), site, head[:200]
+
+
+def trace_excerpt(text, n=1800):
+    m = _DUMP.search(text or "")
+    return (text[max(0, m.start() - 400): m.start() + n] if m else (text or "")[-n:])
 
 
 def obs_proc(rc, out, err, timed_out):
@@ -188,7 +211,7 @@ def run_real(ego, env, sd, items, entry, nproc=12):
         else:
             rc, so, se, to = run_proc([ego, "run"], src, env, d, tmo)
         o = obs_proc(rc, so, se, to)
-        o["stderr_tail"] = se[-1500:] if o["trace"] or o["signal"] else ""
+        o["stderr_tail"] = trace_excerpt(se) if o["trace"] or o["signal"] or o["oom"] else ""
         return cid, o
     with ThreadPoolExecutor(max_workers=nproc) as ex:
         return dict(ex.map(one, items))
@@ -250,11 +273,11 @@ def run_lib(testbin, env, sd, items, nproc, case_ms):
             done = set(ended)
             if started is not None and started not in done:
                 # the process ended while this text was being handled
-                tail = open(ferr, "rb").read()[-300000:].decode("utf8", "replace")
+                tail = crash_excerpt(ferr)
                 tr, oom, kind, site, head = trace_info(tail)
                 o = {"timeout": hung, "oom": oom, "trace": tr and not oom, "signal": (-p.returncode if p.returncode < 0 and not hung else 0),
                      "alive": hung or tr or oom or False, "recovered": False, "err": True, "kind": kind, "site": site, "head": head,
-                     "rc": p.returncode, "stderr_tail": tail[-1500:]}
+                     "rc": p.returncode, "stderr_tail": trace_excerpt(tail)}
                 if not (hung or tr or oom) and p.returncode >= 0:
                     o["alive"] = True            # the text ended the process itself (os.Exit from Ego code): an exit status, not a crash
                 with lock:
@@ -304,10 +327,7 @@ class SrvPool:
                 self.srv.stop()
 
     def output(self):
-        try:
-            return open(os.path.join(self.srv.dir, "stdout.txt"), errors="replace").read()[-400000:]
-        except OSError:
-            return ""
+        return crash_excerpt(os.path.join(self.srv.dir, "stdout.txt"))
 
     def cpu(self):
         try:
@@ -360,7 +380,8 @@ def run_server(pool, items, nthreads, tmo):
             gate.notify_all()
 
     def restart(gen, planned):
-        """called with no request of this thread in flight; only the first caller for a generation restarts"""
+        """called with no request of this thread in flight; only the first caller for a generation restarts.  A planned
+        restart happens only if the server burns CPU with nothing in flight (a text that timed out left it spinning)."""
         with gate:
             if state["gen"] != gen or state["pausing"]:
                 return
@@ -369,6 +390,11 @@ def run_server(pool, items, nthreads, tmo):
             while planned and state["n_in"] > 0 and time.time() - t0 < tmo + 2:
                 gate.wait(0.5)
         try:
+            if planned:
+                c0 = pool.cpu()
+                time.sleep(0.4)
+                if pool.cpu() - c0 < 12:         # clock ticks (10 ms): less than a third of one core
+                    return
             pool.stop()
             state["planned" if planned else "restarts"] += 1
             if state["restarts"] > 60:
@@ -430,7 +456,7 @@ def run_server(pool, items, nthreads, tmo):
             else:
                 tr, oom, kind, site, head = trace_info(pool.output())
                 o = dict(TMO, timeout=False, oom=oom, trace=tr and not oom, alive=False, err=True, kind=kind or "died", site=site,
-                         head=head, rc=-1, stderr_tail=pool.output()[-1500:])
+                         head=head, rc=-1, stderr_tail=trace_excerpt(pool.output()))
         res[cid] = o
     return res, state["restarts"]
 
@@ -477,7 +503,7 @@ def _replay(chk, ego, testbin, env, sd):
     recs = []
     for entry in ("run", "repl"):
         o = run_real(ego, env, sd, [(0, src)], entry, nproc=1)[0]
-        print("%s: rc=%s timeout=%s trace=%s %s @ %s\n%s" % (entry, o["rc"], o["timeout"], o["trace"], o["head"], o["site"], o.get("stderr_tail", "")[-800:]))
+        print("%s: rc=%s timeout=%s trace=%s %s @ %s\n%s" % (entry, o["rc"], o["timeout"], o["trace"], o["head"], o["site"], o.get("stderr_tail", "")[:1200]))
         recs.append(_record(case, entry, o))
     o = run_lib(testbin, env, sd, [(0, src)], 1, 8000)[0]
     print("lib: timeout=%s panic=%s %s @ %s" % (o["timeout"], o["trace"], o["head"], o["site"]))
@@ -565,7 +591,7 @@ def run():
         try:
             with ThreadPoolExecutor(max_workers=4) as ex:
                 f_lib = ex.submit(run_lib, testbin, env, sd, items, 8 if thorough else 4, 2500)
-                f_srv = ex.submit(run_server, pool, items, 8, 4 + 2 * load_factor())
+                f_srv = ex.submit(run_server, pool, items, 8, 3 + 0.5 * load_factor())
                 nreal = 1500 if thorough else 60
                 pick = rng.sample(items, min(nreal * 2, len(items)))
                 f_run = ex.submit(run_real, ego, env, sd, pick[:nreal], "run", 12 if thorough else 8)
